@@ -16,12 +16,12 @@ NA = {
  "C20":"templates compute their formulas: function of (template arguments, parameters, index tuple)",
 }
 CHECKS = {
- "C10": ("5.1","Seeded search over pipeline histories (updates, resets, loads, late derivations, aborted compilations) of the real compiler and torch graphs; after every mutating step each live circuit is compared with a same-flags recompilation of its dereferenced clone (reference model R1), storage identity of learnables is checked, and operator-defining relations that held at birth are re-checked. Exploration, not proof: the space of histories is unbounded."),
- "C12": ("5.2","Seeded search over training histories of template-built normalised circuits; total mass (brute force over all states, or the compiled integral) is re-checked as a conservation law after every update."),
- "C15": ("5.3","The simulator owns the random stream: seeded sample / perturb / reset / recompile sequences on normalised circuits; every sample batch is checked for shape, support, per-column attribution (signature circuits) and, by exact binomial tests of all joint cells, single and pairwise marginals (Bonferroni, total level 1e-9), against the exact probabilities obtained by exhaustive evaluation of the compiled circuit."),
- "C17": ("5.4","Seeded search over reset/update/load histories on circuits whose fold groups mix initialisers; every symbolic tensor parameter's registry slice is checked against its own initialiser after compilation and after every reset."),
- "C18": ("5.5","Seeded search over call histories across several pipeline contexts with nested blocks, exceptional exits and injected mid-compile faults, checked step by step against a stack + bimap model."),
- "C19": ("5.6","Seeded search over save/mutate/restart/load histories with a simulated durable store; a version-memo model demands that any saved state reads back exactly into a freshly compiled, freshly initialised instance under a new hash order."),
+ "C10": ("5.1","Seeded search over pipeline histories of the real compiler and torch graphs: in-place updates of learnable and non-learnable tensors (optimiser steps incl. joint parameter lists, perturbations, resets, faults in the middle of a reset, loads incl. assign=True and edited dictionaries), late and composite derivations through every public route, aborted compilations with retries, another context compiling the same symbolic objects, mode switches, restarts. After every mutating step each live circuit is compared with a same-flags recompilation of its dereferenced clone (R1) and with a new derivation from dereferenced operands (R1'); storage identity of learnables, the model's own copy of the compiler's parameter registry and operator-defining relations that held at birth are re-checked. Exploration, not proof: the space of histories is unbounded."),
+ "C12": ("5.2","Seeded search over training histories (optimiser steps, perturbations, resets, loads, restarts; float64 and float32) of circuits built by the region-graph, data-modality, graphical-model and tensor-factorisation templates and by DAG recipes with their normalised settings; total mass - brute force over all joint states, the compiled integral (also integrated in stages), IntegrateQuery - is re-checked as a conservation law after every update, together with non-negativity and finiteness on in-support inputs."),
+ "C15": ("5.3","The simulator owns the random stream: seeded sample / perturb / reset / recompile sequences on normalised circuits (region graphs, DAGs, sparse-support and signature inputs, wide domains, very large sample counts); every sample batch is checked for shape, support, per-column attribution and, by exact binomial tests of all joint cells, single and pairwise marginals (Bonferroni, total level 1e-9), against the exact probabilities obtained by exhaustive evaluation of the compiled circuit; noise and independence of Gaussian columns by exact tests."),
+ "C17": ("5.4","Seeded search over reset / reset-burst / update / load / restart histories on circuits whose fold groups mix initialisers (constants incl. twin, wide, near-uniform, tiny and complex tables, uniform, normal, Dirichlet with every axis, shared initialiser objects); every symbolic tensor parameter's registry slice is checked against its own declared initialiser straight after every compilation and after every reset, pooled distribution tests at the end of a run."),
+ "C18": ("5.5","Seeded search over call histories across several pipeline contexts and bare operator registries with nested blocks, exceptional exits, injected mid-compile faults, refusals and retries, checked step by step against a stack + bimap model; operator functions are compared with (and their refusals judged against) the symbolic route under the context's own registry."),
+ "C19": ("5.6","Seeded search over save / mutate / restart / load histories with a simulated durable store, quiet (unobserved) updates, read-only queries, loads with assign=True and a second context; a version-memo model and a direct comparison demand that any saved state reads back exactly into a freshly compiled, freshly initialised instance under a new hash order; key layout, exactly-once and completeness of the dictionary are checked at every save / restart."),
 }
 claimed = sys.argv[1:]
 m = {
@@ -31,7 +31,7 @@ m = {
  "engines":[{"name":"cirsim","path":"/verif/cirsim","serves_properties":claimed,"kind_free_text":"deterministic simulation with fault injection: seeded plans (operations + faults + hash order + RNG seeds) executed against the real cirkit code in one process, reference-model oracles, ddmin shrinking, replay files"}],
  "checks":[],
  "not_applicable":[],
- "notes":"Exit codes of ./check: 0 held on everything explored; 1 + VIOLATION line; 2 harness failure (no verdict). Known findings are read from known_findings.json and never written at run time.",
+ "notes":"Exit codes of ./check: 0 held on everything explored; 1 + VIOLATION line; 2 harness failure / no verdict (also when fewer than 2 % of the runs were non-trivial). Known findings are read from known_findings.json and never written at run time (none at present; four repaired defects are listed there as fixed). Self-tests: ./check selftest determinism [N], ./check selftest stats, /venv/bin/python mutants/mutants.py, seeded/recheck_all.sh.",
 }
 for c in claimed:
     ref,text=CHECKS[c]
